@@ -1,14 +1,14 @@
 """C11: packing is independent of the host's enumeration order."""
 OBLIGATIONS = []
 def tree(mode, k, s, nl, tiers, timeout=300):
-    return dict(name="%s_k%d_s%d_nl%d" % ({1: "insert_any_order", 2: "numbering_structure_only"}[mode], k, s, nl), harness="harness/C11_fstree.c", sources=["lib/util/src/canonicalize_name.c"],
+    return dict(name="%s_k%d_s%d_nl%d" % ({1: "insert_any_order", 2: "numbering_structure_only", 3: "lookup_exact_name"}[mode], k, s, nl), harness="harness/C11_fstree.c", sources=["lib/util/src/canonicalize_name.c"],
         included_sources=["lib/fstree/src/fstree.c", "lib/fstree/src/post_process.c"], defines=dict(MODE=mode, K=k, S=s, NL=nl),
         unwind=k + s + 3, unwindset={'alloc_inode_num_dfs': 3, 'map_inodes_dfs': 3, 'file_list_dfs': 3}, tiers=tiers, timeout=timeout,
-        reach=["flat"] if mode == 1 else ["with_subdir"],
-        functions=["insert_sorted (lib/fstree/src/fstree.c)"] if mode == 1 else ["alloc_inode_num_dfs, map_inodes_dfs, file_list_dfs (lib/fstree/src/post_process.c)"],
-        bound=("%d siblings with names <= %d bytes (all byte values, pairwise distinct), unconstrained in order => every insertion order of every name set" % (k, nl)) if mode == 1 else
+        reach=["flat"] if mode == 1 else (["found", "not_found"] if mode == 3 else ["with_subdir"]),
+        functions=["insert_sorted (lib/fstree/src/fstree.c)"] if mode == 1 else ["child_by_name, insert_sorted (lib/fstree/src/fstree.c)"] if mode == 3 else ["alloc_inode_num_dfs, map_inodes_dfs, file_list_dfs (lib/fstree/src/post_process.c)"],
+        bound=("%d siblings with names <= %d bytes (all byte values, pairwise distinct), unconstrained in order => every insertion order of every name set" % (k, nl)) if mode == 1 else ("%d siblings with names <= %d bytes, any query component of 1..%d bytes followed by any byte" % (k, nl, nl)) if mode == 3 else
               ("fixed list structure root->[%d children, second one a directory with %d children]; names, owners, times symbolic: results must be constants" % (k, s)))
-OBLIGATIONS += [tree(1, 2, 0, 2, ["quick", "thorough"]), tree(1, 3, 0, 2, ["quick", "thorough"]), tree(1, 4, 0, 2, ["quick", "thorough"]), tree(1, 5, 0, 2, ["thorough"], 1200),
+OBLIGATIONS += [tree(3, 2, 0, 2, ["quick", "thorough"]), tree(3, 3, 0, 3, ["thorough"]), tree(1, 2, 0, 2, ["quick", "thorough"]), tree(1, 3, 0, 2, ["quick", "thorough"]), tree(1, 4, 0, 2, ["quick", "thorough"]), tree(1, 5, 0, 2, ["thorough"], 1200),
                 tree(1, 4, 0, 3, ["thorough"], 1200)]
 # numbering_structure_only (MODE 2 of the harness) is not registered: CBMC encodes the tree_node_t union through byte operators, the
 # child pointers stop being constants and the recursion of alloc_inode_num_dfs explodes (no verdict in 300 s even for 5 nodes) - see DESIGN.md
